@@ -134,7 +134,10 @@ def rules(ctx):
         o.id = o.id.replace("C01/R3.", "C01/R7.")
     flow_arcs(ctx)
     # the insertion / removal decisions rest on the position walks and the gap test (shared with C12)
-    from .C12 import scans_are_loops, gap_guard, gap_operands, bisection_rules
+    from .C12 import scans_are_loops, gap_guard, gap_operands, bisection_rules, path_new_checks_every_hop
+    from .C17 import loader_subset as _ls
+    _ls(ctx, ["Config-new-positional"])       # the turnaround times the tours are checked against are the instance's own
+    path_new_checks_every_hop(ctx, "R8")     # the constructor that vouches for "consecutive nodes are connectable"
     before = len(ctx.obligations)
     bisection_rules(ctx)
     _b = len(ctx.obligations)
